@@ -362,7 +362,9 @@ Record mfile := mkMF { mf_bytes : bytes; mf_man : manifest }.
 
 Inductive step :=
 | SAdd (cs : list change) (ord : list N)   (* addChanges; ord resolves asChanges' map order *)
-| SReopen.                                  (* close; helpOpenOrCreateManifestFile again *)
+| SReopen                                   (* close; helpOpenOrCreateManifestFile again *)
+| STear (n : nat) (zero : bool).            (* close; crash damage: the MANIFEST is cut to n bytes
+                                               (zero: and zero-filled up to its old size); open again *)
 
 Inductive outcome :=
 | ORejected (e : aerr)      (* addChanges returned the applyChangeSet error; nothing written *)
@@ -407,10 +409,14 @@ Definition reopen (cfg : mcfg) (st : mfile) : mfile * outcome :=
       end
   end.
 
+Definition tear_bytes (b : bytes) (n : nat) (zero : bool) : bytes :=
+  firstn n b ++ (if zero then repeat 0 (length b - n) else []).
+
 Definition do_step (cfg : mcfg) (st : mfile) (s : step) : mfile * outcome :=
   match s with
   | SAdd cs ord => add_changes cfg st cs ord
   | SReopen => reopen cfg st
+  | STear n zero => reopen cfg (mkMF (tear_bytes (mf_bytes st) n zero) (mf_man st))
   end.
 
 Fixpoint run (cfg : mcfg) (st : mfile) (steps : list step) : mfile * list outcome :=
@@ -445,8 +451,9 @@ Fixpoint apply_sets (m : manifest) (css : list (list change)) : manifest * optio
 
 Definition wf_changeset (cs : list change) : bool := forallb wf_change cs.
 
+(* the run theorems are about runs without crash damage; torn tails are the C09_manifest_* theorems *)
 Definition step_wf (s : step) : bool :=
-  match s with SAdd cs _ => wf_changeset cs | SReopen => true end.
+  match s with SAdd cs _ => wf_changeset cs | SReopen => true | STear _ _ => false end.
 
 Definition outcome_ok (o : outcome) : bool :=
   match o with OAppended | ORewrote | OReopened _ => true | _ => false end.
@@ -469,6 +476,7 @@ Fixpoint no_reopen (steps : list step) : bool :=
   match steps with
   | [] => true
   | SReopen :: _ => false
+  | STear _ _ :: _ => false
   | SAdd _ _ :: r => no_reopen r
   end.
 
@@ -486,5 +494,6 @@ Fixpoint accepted (steps : list step) (outs : list outcome) : list (list change)
   match steps, outs with
   | SAdd cs _ :: r, o :: os => if outcome_ok o then cs :: accepted r os else accepted r os
   | SReopen :: r, _ :: os => accepted r os
+  | STear _ _ :: r, _ :: os => accepted r os
   | _, _ => []
   end.
